@@ -201,6 +201,10 @@ def make_dataset(d, spec=None):
         cmap = np.arange(nc)
     elif s['channel_map'] == 'perm':
         cmap = np.roll(np.arange(nc), 1)      # the largest raw index comes first
+    elif s['channel_map'] == 'sub_high':   # a sub-selection that does not contain raw channel 0
+        n_dat = max(n_dat, nc + 3)
+        cmap = np.arange(nc) + 2
+        cmap[-1] += 1
     else:   # a sub-selection of a wider raw file
         n_dat = max(n_dat, nc + 2)
         cmap = np.array([i + (1 if i >= 1 else 0) + (1 if i >= nc - 1 else 0) for i in range(nc)])
